@@ -885,6 +885,7 @@ func runC11(p *Program, r *Report) {
 	checkOnceSingle(p, r, "C11.O2")
 	checkPublishLast(p, r, "C11.O5")
 	checkReadOnlyAccessors(p, r, "C11.O6")
+	checkPoolSingleReturn(p, r, "C11.O7")
 
 	// ---- O3 workers
 	nWorkers := 0
@@ -1139,4 +1140,86 @@ func fromParameter(v ssa.Value, depth int) string {
 		return fromParameter(x.X, depth+1)
 	}
 	return ""
+}
+
+// checkPoolSingleReturn (O7): an object taken from a sync.Pool belongs to one call until it is
+// put back, and it is put back once. A function that both defers and directly calls a routine
+// which unconditionally reaches (*sync.Pool).Put hands the same object to the pool twice on every
+// path through the direct call; two later concurrent Gets then receive the one object and the
+// calls overwrite each other's data (seed C11-Q: neither release site is wrong alone). The rule
+// reports the function and both sites. A release routine that contains a branch (a nil/guard
+// test that can make it idempotent) is not reported.
+func checkPoolSingleReturn(p *Program, r *Report, rule string) {
+	isPut := func(c ssa.CallInstruction) bool {
+		cf := staticCallee(c)
+		if cf == nil || cf.Signature.Recv() == nil || cf.Name() != "Put" || cf.Pkg == nil || cf.Pkg.Pkg.Path() != "sync" {
+			return false
+		}
+		return strings.Contains(cf.Signature.Recv().Type().String(), "sync.Pool")
+	}
+	// routines that unconditionally put: straight-line body containing a Put or a call to such a routine
+	puts := map[*ssa.Function]bool{}
+	for changed := true; changed; {
+		changed = false
+		for _, f := range p.SrcFuncs() {
+			if puts[f] || len(f.Blocks) != 1 {
+				continue
+			}
+			for _, in := range f.Blocks[0].Instrs {
+				c, ok := in.(ssa.CallInstruction)
+				if !ok {
+					continue
+				}
+				if isPut(c) || puts[staticCallee(c)] {
+					puts[f] = true
+					changed = true
+					break
+				}
+			}
+		}
+	}
+	nPool, nSites, bad := 0, 0, ""
+	for _, f := range p.SrcFuncs() {
+		type site struct {
+			deferred bool
+			in       ssa.Instruction
+		}
+		byTarget := map[string][]site{}
+		for _, b := range f.Blocks {
+			for _, in := range b.Instrs {
+				c, ok := in.(ssa.CallInstruction)
+				if !ok {
+					continue
+				}
+				cf := staticCallee(c)
+				if cf != nil && cf.Pkg != nil && cf.Pkg.Pkg.Path() == "sync" && cf.Signature.Recv() != nil && strings.Contains(cf.Signature.Recv().Type().String(), "sync.Pool") {
+					nPool++
+				}
+				if !isPut(c) && !puts[cf] {
+					continue
+				}
+				nSites++
+				k := cf.String()
+				if len(c.Common().Args) > 0 {
+					k += " " + c.Common().Args[0].Name()
+				}
+				_, d := in.(*ssa.Defer)
+				byTarget[k] = append(byTarget[k], site{d, in})
+			}
+		}
+		for _, ss := range byTarget {
+			var def, dir ssa.Instruction
+			for _, s := range ss {
+				if s.deferred {
+					def = s.in
+				} else {
+					dir = s.in
+				}
+			}
+			if def != nil && dir != nil {
+				bad = fmt.Sprintf("%s releases the same pooled object twice: deferred at %s and directly at %s — the pool then holds it twice and two concurrent calls are handed the same buffer", shortFn(f), p.InstrPos(def), p.InstrPos(dir))
+			}
+		}
+	}
+	r.Check(bad == "", rule, "pooled objects are returned once", "-", fmt.Sprintf("%d sync.Pool calls, %d release sites: no function both defers and directly calls an unconditional release of the same object", nPool, nSites), bad)
 }
